@@ -356,3 +356,132 @@ func VerifC13_sorted_equals_unsorted_on_sorted_input() {
 	}
 	verifReach("C13/sorted/end")
 }
+
+// Two join fields (-j a,b): the pairing key is the PAIR of values, a record lacking either field —
+// or, under --ignore-empty, holding an empty value in either — is unpaired, and distinct pairs never
+// collide whatever bytes (separators included) the values hold.  2 left x 2 right records; per
+// record a is empty or one symbolic byte, b is missing, empty or one symbolic byte; every option
+// combination; default and sorted (-s) mode (the latter on inputs assumed sorted).
+type c13Rec2 struct {
+	a      string
+	hasB   bool
+	b      string
+}
+
+func c13Side2(name string, n int) []c13Rec2 {
+	out := make([]c13Rec2, n)
+	for i := 0; i < n; i++ {
+		if verifChoice(name+"_a_state", 2) == 1 {
+			out[i].a = verifString(name+"_a", 1)
+		}
+		switch verifChoice(name+"_b_state", 3) {
+		case 1:
+			out[i].hasB = true
+		case 2:
+			out[i].hasB, out[i].b = true, verifString(name+"_b", 1)
+		}
+	}
+	return out
+}
+
+func c13Build2(side []c13Rec2, idName, idPrefix string) []*mlrval.Mlrmap {
+	var out []*mlrval.Mlrmap
+	for i, r := range side {
+		rec := mlrval.NewMlrmapAsRecord()
+		rec.PutReference(idName, mlrval.FromString(idPrefix+string(rune('0'+i))))
+		rec.PutReference("a", mlrval.FromString(r.a))
+		if r.hasB {
+			rec.PutReference("b", mlrval.FromString(r.b))
+		}
+		out = append(out, rec)
+	}
+	return out
+}
+
+func c13KeyOK2(r c13Rec2, ie bool) bool {
+	return r.hasB && !(ie && (r.a == "" || r.b == ""))
+}
+
+//verif:opts engine-only maxpaths=200000 maxpaths_thorough=900000
+func VerifC13_two_join_fields() {
+	verifReplace("github.com/johnkerl/miller/v6/pkg/input.Create", c13InputCreate)
+	np, ul, ur, ie := c13Options()
+	sorted := verifChoice("sorted_mode", 2) == 1
+	L := c13Side2("left", 2)
+	R := c13Side2("right", 2)
+	if sorted {
+		// -s expects both inputs sorted by the join fields: lexically by a, then by b
+		for _, side := range [][]c13Rec2{L, R} {
+			prev := -1
+			for i := range side {
+				if c13KeyOK2(side[i], ie) {
+					if prev >= 0 {
+						p, q := side[prev], side[i]
+						verifAssume(p.a < q.a || (p.a == q.a && p.b <= q.b))
+					}
+					prev = i
+				}
+			}
+		}
+	}
+	c13LeftRecs = c13Build2(L, "lid", "L")
+	argv := []string{"join", "-f", "left-file", "-j", "a,b"}
+	for _, f := range []struct {
+		on   bool
+		flag string
+	}{{np, "--np"}, {ul, "--ul"}, {ur, "--ur"}, {ie, "--ignore-empty"}, {sorted, "-s"}} {
+		if f.on {
+			argv = append(argv, f.flag)
+		}
+	}
+	tr, ok := verifVerb(argv...).(*TransformerJoin)
+	verifAssert(ok && tr != nil, "C13/constructed-from-its-command-line")
+	out := c13Run(tr, c13Build2(R, "rid", "R"))
+
+	s := c13Scheme{}
+	var pairs [2][2]int
+	var lonly, ronly [2]int
+	for _, o := range out {
+		i, j := c13Identity(o, s)
+		switch {
+		case i >= 0 && i < 2 && j >= 0 && j < 2:
+			pairs[i][j]++
+			verifAssert(o.Record.Get("a").String() == L[i].a && o.Record.Get("b") != nil && o.Record.Get("b").String() == L[i].b, "C13/two-fields/paired-record-carries-the-join-values")
+		case i >= 0 && i < 2 && j < 0:
+			lonly[i]++
+		case j >= 0 && j < 2 && i < 0:
+			ronly[j]++
+		default:
+			verifAssert(false, "C13/two-fields/every-output-comes-from-an-input")
+		}
+	}
+	for i := 0; i < 2; i++ {
+		paired := false
+		for j := 0; j < 2; j++ {
+			match := c13KeyOK2(L[i], ie) && c13KeyOK2(R[j], ie) && L[i].a == R[j].a && L[i].b == R[j].b
+			paired = paired || match
+			want := 0
+			if match && !np {
+				want = 1
+			}
+			verifAssert(pairs[i][j] == want, "C13/two-fields/paired-exactly-when-both-values-agree")
+		}
+		want := 0
+		if !paired && ul {
+			want = 1
+		}
+		verifAssert(lonly[i] == want, "C13/two-fields/left-unpaired-exactly-once")
+	}
+	for j := 0; j < 2; j++ {
+		paired := false
+		for i := 0; i < 2; i++ {
+			paired = paired || (c13KeyOK2(L[i], ie) && c13KeyOK2(R[j], ie) && L[i].a == R[j].a && L[i].b == R[j].b)
+		}
+		want := 0
+		if !paired && ur {
+			want = 1
+		}
+		verifAssert(ronly[j] == want, "C13/two-fields/right-unpaired-exactly-once")
+	}
+	verifReach("C13/two-fields/end")
+}
